@@ -172,3 +172,34 @@ func H_kq_rmdir() {
 	verifAssert(wt.Close() == nil, "Close")
 	verifReach("kq-rmdir")
 }
+
+// Nested watches added parent first: the sub-directory was picked up internally
+// (delete/rename notes only) and is then added by the user; its existing
+// entries are not new, and their changes are reported.
+func H_kq_nested() {
+	verifQReset()
+	verifAddNode("/d", nDir, "")
+	verifAddNode("/d/a", nDir, "")
+	verifAddNode("/d/a/x", nFile, "")
+	verifAddNode("/d/a/y", nAbsent, "")
+	wt, _ := verifKqNew()
+	first := verifChoose("order", 2)
+	if first == 0 {
+		verifAssert(wt.Add("/d") == nil, "Add parent")
+		verifAssert(wt.Add("/d/a") == nil, "Add child")
+	} else {
+		verifAssert(wt.Add("/d/a") == nil, "Add child")
+		verifAssert(wt.Add("/d") == nil, "Add parent")
+	}
+	got := verifCollect(wt, nil)
+	verifExpect(got, nil, "entries that existed when the watches were added are never reported as Create")
+	verifRaise("/d/a/x", unix.NOTE_WRITE)
+	got = verifCollect(wt, nil)
+	verifExpect(got, []verifKqExp{{"/d/a/x", Write}}, "changes of an entry of the user-added sub-directory are reported")
+	verifNodeOf2("/d/a/y").kind = nFile
+	verifRaise("/d/a", unix.NOTE_WRITE)
+	got = verifCollect(wt, nil)
+	verifExpect(got, []verifKqExp{{"/d/a/y", Create}}, "a new entry of the sub-directory is reported once; existing ones are not reported as new")
+	verifAssert(wt.Close() == nil, "Close")
+	verifReach("kq-nested")
+}
